@@ -336,7 +336,7 @@ class Ctx:
                     self.counter += 1
                     k = z3.Int(f"k!cw{self.counter}")
                     self.pc.append(row == z3.Store(old_row, idx, zv))
-                    carry = z3.ForAll([k], z3.Select(row, k) == z3.If(k == idx, zv, z3.Select(old_row, k)), patterns=[z3.Select(old_row, k)])
+                    carry = z3.ForAll([k], z3.Select(row, k) == z3.If(k == idx, zv, z3.Select(old_row, k)), patterns=[z3.Select(old_row, k), z3.Select(row, k)])
                     self.pc.append(carry)
                     self.keep_ids.add(carry.get_id())
                     self.sheap[("item", str(s), p)] = z3.Store(m, lst.z, row)
